@@ -3,7 +3,7 @@
    Scan lemmas: what relabel_split does to the per-supervoxel voxel counts of a block, that
    block_splits / under_mask list exactly the masked counts, the pointwise reading of split_index,
    voxel conservation of the split, and Inv-preservation of the step under [split_guard]. *)
-From DV Require Import Base.Prelude Model.Index Model.LabelMap Proofs.Index Proofs.LabelMap.
+From DV Require Import Base.Prelude Model.Index Model.LabelMap Proofs.Index Proofs.LabelMapCore.
 From Coq Require Import ZifyN ZifyNat ZifyBool.
 Local Open Scope N_scope.
 
@@ -524,13 +524,19 @@ Proof.
 Qed.
 
 Lemma in_occ_pos arr l : In l arr -> 0 < occ arr l.
-Proof. intro H. apply in_nodupN_occ. now apply nodupN_In. Qed.
+Proof.
+  induction arr as [|a r IH]; intro H; [destruct H|]. rewrite occ_cons. destruct H as [<-|H].
+  - rewrite N.eqb_refl. lia.
+  - destruct (a =? l); [lia | auto].
+Qed.
 
 (* voxels of s in block b under the block's mask *)
 Definition vcm (st : fstate) (masks : list (N * list bool)) (b s : N) : N :=
   match aget N.eqb b (f_vox st) with Some arr => count_masked arr (mask_of masks b) s | None => 0 end.
 
 (* ---------- the guard of a body split ---------- *)
+Definition fresh_sv (st : fstate) (x : N) : Prop := x <> 0 /\ forall b, vcount st b x = 0.
+
 Definition split_guard (st : fstate) (body newl : N) (masks : list (N * list bool)) (sm : list (N * (N * N))) : Prop :=
   newl <> 0 /\ get_idx st newl = None /\
   NoDup (map fst masks) /\ NoDup (ids sm) /\
@@ -719,4 +725,72 @@ Proof.
       unfold cnt in Q; simpl in Q. lia.
     + destruct (l =? body); [|apply (c_wf st C)]. destruct ridx as [|e r]; [discriminate|].
       intro X; inversion X; subst i. split; [exact Wr | discriminate].
+Qed.
+
+(* ---------- block arrays keep their length ---------- *)
+Lemma sizedv_relabel_blocks n masks sm : forall L vx, SizedV n vx -> SizedV n (relabel_blocks masks sm L vx).
+Proof.
+  induction L as [|b r IH]; intros vx S; [exact S|]. unfold relabel_blocks; cbn [fold_left].
+  destruct (aget N.eqb b vx) as [arr|] eqn:A.
+  - apply IH. apply sizedv_aset; [exact S|]. rewrite length_relabel_split. apply (S b arr A).
+  - apply IH, S.
+Qed.
+
+Lemma sized_split n st body newl masks sm st' :
+  Sized n st -> f_split st body newl masks sm = Ok st' -> Sized n st'.
+Proof.
+  intros S. unfold f_split.
+  destruct (get_idx st body) as [idx|]; [|discriminate].
+  match goal with |- (if ?c then _ else _) = _ -> _ => destruct c end; [discriminate|].
+  destruct (block_splits (f_vox st) masks sm) as [bs|]; [|discriminate].
+  match goal with |- (if ?c then _ else _) = _ -> _ => destruct c end; [discriminate|].
+  destruct (split_index idx bs sm) as [[ridx sidx]| |]; try discriminate.
+  intro E. apply Ok_inj in E. subst st'. unfold Sized; cbn [f_vox].
+  apply (sizedv_relabel_blocks n masks sm _ (f_vox st) S).
+Qed.
+
+(* ---------- voxel conservation of the split ---------- *)
+(* the two bodies together hold what the body held; every other body keeps its index *)
+Theorem split_sizes st body newl masks sm st' :
+  newl <> body -> get_idx st newl = None ->
+  f_split st body newl masks sm = Ok st' ->
+  o_size st' body + o_size st' newl = o_size st body /\
+  (forall l, l <> body -> l <> newl -> get_idx st' l = get_idx st l).
+Proof.
+  intros Hnb Hnone. unfold f_split, o_size.
+  destruct (get_idx st body) as [idx|] eqn:Hi; [|discriminate].
+  match goal with |- (if ?c then _ else _) = _ -> _ => destruct c end; [discriminate|].
+  destruct (block_splits (f_vox st) masks sm) as [bs|]; [|discriminate].
+  match goal with |- (if ?c then _ else _) = _ -> _ => destruct c end; [discriminate|].
+  destruct (split_index idx bs sm) as [[ridx sidx]| |] eqn:Es; try discriminate.
+  intro E. apply Ok_inj in E. subst st'. unfold get_idx; cbn [f_idx]. split.
+  - rewrite !aget_put_idx, N.eqb_refl, (N_eqb_neq body newl) by congruence. rewrite N.eqb_refl.
+    pose proof (split_index_conserves idx bs sm ridx sidx Es) as Hc. destruct ridx; [cbn in Hc |]; lia.
+  - intros l H1 H2. now rewrite !aget_put_idx, (N_eqb_neq l newl H2), (N_eqb_neq l body H1).
+Qed.
+
+(* no supervoxel is listed by two bodies of a consistent state *)
+Lemma consistent_disjoint st l1 l2 x :
+  Consistent st -> l1 <> l2 -> In x (o_supervoxels st l1) -> In x (o_supervoxels st l2) -> False.
+Proof.
+  intros C Hne H1 H2. unfold o_supervoxels in *.
+  destruct (get_idx st l1) as [i1|] eqn:G1; [|destruct H1]. destruct (get_idx st l2) as [i2|] eqn:G2; [|destruct H2].
+  apply memN_In in H1, H2. rewrite sv_in_supervoxels in H1, H2.
+  destruct (consistent_sv_in st l1 i1 x C G1 H1) as [_ M1]. destruct (consistent_sv_in st l2 i2 x C G2 H2) as [_ M2]. congruence.
+Qed.
+
+Theorem split_voxel_conservation st body newl masks sm st' :
+  Consistent st -> split_guard st body newl masks sm ->
+  f_split st body newl masks sm = Ok st' ->
+  o_size st' body + o_size st' newl = o_size st body /\
+  (forall x, ~ (In x (o_supervoxels st' body) /\ In x (o_supervoxels st' newl))) /\
+  (forall l, l <> body -> l <> newl -> o_index st' l = o_index st l).
+Proof.
+  intros C G H. pose proof (consistent_split st body newl masks sm st' C G H) as C'.
+  destruct G as (Hn0 & Hnone & _).
+  assert (newl <> body) as Hnb.
+  { intro X. unfold f_split in H. rewrite <- X, Hnone in H. discriminate. }
+  destruct (split_sizes st body newl masks sm st' Hnb Hnone H) as [S1 S2].
+  split; [exact S1|]. split; [|exact S2].
+  intros x [H1 H2]. apply (consistent_disjoint st' body newl x C'); auto.
 Qed.
